@@ -9,19 +9,35 @@ package best
 //@   valid self.clientMonitor != nil && self.aggregateAttestationProviders != nil
 //@   valid forall n string :: in(self.aggregateAttestationProviders, n) ==> self.aggregateAttestationProviders[n] != nil
 //@
-//@ // ---- C20: the goroutines a request starts all end, whether or not anybody still listens ----
+//@ // ---- C07: the best answer received, an error exactly when none was ----
 //@
-//@ // a node's goroutine sends exactly one message, on one of the two channels it is handed
+//@ func (*Service).scoreAggregateAttestation
+//@   requires s != nil && (aggregate != nil ==> aggregate.Data != nil)
+//@   modifies nothing
+//@
+//@ // a node's goroutine sends exactly one message, on one of the two channels it is handed, and on the response channel
+//@ // only an answer that carries data (the validity rule of this strategy)
 //@ func (*Service).aggregateAttestation
 //@   thread
 //@   requires s != nil && opts != nil && provider != nil && !closed(respCh) && !closed(errCh)
-//@   // go-eth2-client returns a response with every nil error
-//@   assumes call AggregateAttestation#1 (r, err): err == nil ==> r != nil
+//@   // go-eth2-client returns a response with every nil error, and its decoder refuses an attestation without data
+//@   assumes call AggregateAttestation#1 (r, err): err == nil ==> r != nil && (r.Data != nil ==> r.Data.Data != nil)
+//@   chaninv respCh (m): m != nil && m.aggregate != nil
+//@   chaninv errCh (m): m != nil
 //@   exit sends() == 1
 //@
 //@ func (*Service).AggregateAttestation
 //@   requires s != nil && opts != nil
-//@   // nstarted: the number of goroutines started so far. A goroutine is only started while both channels have room
+//@   // slots handed to the strategy are duty slots
+//@   requires opts != nil ==> opts.Slot <= 9223372036854775807
+//@   chaninv respCh (m): m != nil && m.aggregate != nil
+//@   chaninv errCh (m): m != nil
+//@   // ghost history of the responses received so far: got[d][x] <=> a response (data d, score x) was received
+//@   ghost n Int = 0
+//@   ghost got (Array Int (Array Real Bool)) = empty
+//@   at recv respCh: ghost n = n + 1
+//@   at recv respCh: ghost got[msg.aggregate][msg.score] = true
+//@   // C20, nstarted: the number of goroutines started so far. A goroutine is only started while both channels have room
 //@   // for one more message than there are goroutines already: as each sends exactly one message, none can block when
 //@   // the requester has stopped listening
 //@   ghost nstarted Int = 0
@@ -29,3 +45,15 @@ package best
 //@   at call go#1: ghost nstarted = nstarted + 1
 //@   loop 1
 //@     invariant nstarted == nvisited()
+//@   loop 2
+//@     invariant n >= 0 && (bestAggregateAttestation == nil <==> n == 0)
+//@     invariant bestAggregateAttestation != nil ==> got[bestAggregateAttestation][bestScore]
+//@     invariant forall d *phase0.Attestation, x float64 :: got[d][x] ==> x <= bestScore && n > 0
+//@   loop 3
+//@     invariant n >= 0 && (bestAggregateAttestation == nil <==> n == 0)
+//@     invariant bestAggregateAttestation != nil ==> got[bestAggregateAttestation][bestScore]
+//@     invariant forall d *phase0.Attestation, x float64 :: got[d][x] ==> x <= bestScore && n > 0
+//@   // an error exactly when no response with data was received; otherwise the answer is a response that was actually
+//@   // received and no received response scores higher
+//@   ensures opts != nil ==> (result1 != nil <==> n == 0)
+//@   ensures result1 == nil ==> result0 != nil && result0.Data != nil && got[result0.Data][bestScore] && (forall d *phase0.Attestation, x float64 :: got[d][x] ==> x <= bestScore)
